@@ -104,7 +104,7 @@ def parse_vtk_compressed(stream, data):
 
 
 def run(ctx):
-    cc.translate_and_prove(ctx, ["Codec"])
+    cc.translate_and_prove(ctx, ["Codec", "EncodeC06", "StaticC06"])
     exes = cc.build(ctx, static=True)
     rng = ctx.rng
     t0 = time.time()
@@ -116,7 +116,8 @@ def run(ctx):
     # ---- pass 1: encoders, VTK writers, base-64 streams, translator validation ---------------------------------------
     vcases = []
     for d in [b"", b"a", b"ab", b"abc", bytes(rng.getrandbits(8) for _ in range(100)), bytes(32767), bytes(rng.getrandbits(8) for _ in range(32768)),
-              (b"vtk point data 0.125 " * 1600)[:32769], bytes(rng.getrandbits(8) for _ in range(65536)), (b"xyz" * 30000)[:70001]] + \
+              (b"vtk point data 0.125 " * 1600)[:32769], bytes(rng.getrandbits(8) for _ in range(65536)), (b"xyz" * 30000)[:70001],
+              bytes(rng.getrandbits(8) for _ in range(98305))] + \
              [bytes(rng.getrandbits(8) for _ in range(rng.randrange(1, 3000))) for _ in range(10 if ctx.quick else 100)]:
         vcases.append(d)
     bcases = []          # chunked base-64 streams
@@ -124,6 +125,19 @@ def run(ctx):
         nch = rng.randrange(1, 6)
         chunks = [bytes(rng.getrandbits(8) for _ in range(rng.choice([0, 1, 2, 3, 4, 5, 57, 58, rng.randrange(0, 200)]))) for _ in range(nch)]
         bcases.append(chunks)
+    # histories aimed at the case split of the carry (C06_b64_history_state): every state A/B/C (0, 1, 2 bytes before) x a call with
+    # 0, 1, 2, 3 bytes x a call with 0..3 bytes, and empty calls in between (seed C06c: a one-byte or empty call in step B / C)
+    nhist = 0
+    for a in range(4):
+        for b in range(4):
+            for c in range(4):
+                ch = [bytes(rng.getrandbits(8) for _ in range(k)) for k in (a, b, c)]
+                bcases.append(ch); nhist += 1
+                if (a + b + c) % 2 == 0:
+                    bcases.append([ch[0], b"", ch[1], b"", ch[2], b""]); nhist += 1
+    for n in (7, 8, 9):
+        d = bytes(rng.getrandbits(8) for _ in range(n))
+        bcases.append([d[k:k + 1] for k in range(n)]); nhist += 1       # one byte per call
     bdcases = []         # chunked decoding of valid and dirty texts
     for _ in range(150 if ctx.quick else 2000):
         raw = bytes(rng.getrandbits(8) for _ in range(rng.randrange(0, 120)))
@@ -292,6 +306,15 @@ def run(ctx):
             dmeta.append((i, v, kd))
         dl.append("info " + cc.hx(text))
         dmeta.append((i, v, None))
+    # one PROCESS, many texts, any order (C06_process_is_stateless): the decodes above run in the order of the data sets (by size:
+    # stored / fixed-code streams first, dynamic ones later); here a sample of the small texts of the zlib build is decoded AGAIN in
+    # random order by the same process, so that fixed-code, dynamic and stored streams alternate (seed C06d: stale tables)
+    small = [k for k, (i, tv, kd) in enumerate(dmeta) if tv == "z" and kd is not None and len(ecases[i]["data"]) <= 3000]
+    rng.shuffle(small)
+    nshuf = 0
+    for k in small[:(150 if ctx.quick else 3000)]:
+        dl.append(dl[k] + " ")                # a distinct case line (trailing blank): same decode, later in the process
+        dmeta.append(dmeta[k]); nshuf += 1
     out2 = {}
     for v in ("z", "nz"):
         out2[v], inc = cc.run_harness(ctx, exes[v], dl, timeout=170 if ctx.quick else 1500)
@@ -404,12 +427,18 @@ def run(ctx):
                        "chunked base-64 streams; translator validation: all 256 char values, adler32 over lengths around 5000 with all-0xff and random bytes, noncompress_bound grid. "
                        "A case is non-trivial if its data is not empty; distinct = distinct case lines" % (130 if ctx.quick else 399))
     ctx.cov["exhaustive"] = False
+    dist["b64:carry-histories"] = nhist
+    dist["dec:shuffled-order"] = nshuf
     ctx.notes["case_distribution"] = dist
+    ctx.notes["t1_groups"] = "Codec (leaf functions, size formulas), EncodeC06 (42 slices of the encoder side), StaticC06 (census of static objects)"
     ctx.notes["round_trip_decodes_checked"] = nround
     ctx.notes["texts"] = len(texts)
     for c in ecases[:: max(1, len(ecases) // 5)][:5]:
         ctx.sample({"case": c["line"][:120]})
     ctx.cov["trusted_base"] = ["tools/c2g translator and clang-14's JSON AST (mitigated by the differential run of this check)",
+                               "translator add-ons of group EncodeC06: the desugaring of tools/c2g/groups_C07.py (x++ in expressions, stores and returns as ghost outputs, "
+                               "loop steps) and the rewriting rules listed in tools/c2g/groups_C06.py ((void) f () = f (), aborting checks dropped, p[k] = byte at address p + k, "
+                               "calls as ghost outputs by slicelib's `effects`); the census of static objects reads clang's AST (kinds of use classified syntactically)",
                                "zlib compress2/uncompress: contract inflate (deflate l d) = d (Section hypotheses of C06_roundtrip)",
                                "Python's base64/zlib modules as the independent reader of the oracle"]
     ctx.assumptions += ["documented preconditions of sc_io_encode_zlib: output (or in-place input) array owns its memory and has element size 1, level in -1..9",
